@@ -14,10 +14,7 @@ NOTES = ("Technique family: machine-checked proof in Coq 8.16.1. Every check = (
 
 NOT_APPLICABLE = {}
 
-CHECKS = {
-    "C09": {
-        "text": "Coq theorems over the executable model of base64_encode/base64_decode (tables and loop constants regenerated from preprocess/base64.cc each run): encode = RFC 4648 for all byte strings, decode(encode) = id with any amount of padding removed, every foreign byte before '=' rejected (256-entry sweep over the regenerated INV_TABLE lifted by forallb_forall); docenc round trip and index selection theorems over the document model. Model tied to the code by extracted-model-vs-harness runs (exhaustive lengths 0-2, every foreign byte at every offset) and tool-level docenc runs.",
-        "note": "Trusted: Coq kernel, gen_src.py, extraction (ExtrOcamlBasic), harness; the FilePiece record splitting used by docenc is the C02 specification function, tied by tool-level runs. `int val` overflow modelled as 32-bit wrap (g++).",
-        "technique": "Coq proof (induction over 3-byte groups, lia, vm_compute table sweeps) + extracted-model/implementation correspondence",
-    },
-}
+import glob, json, os
+CHECKS = {}
+for _f in sorted(glob.glob(os.path.join(os.path.dirname(os.path.abspath(__file__)), "..", "meta", "C*.json"))):
+    CHECKS[os.path.basename(_f)[:-5]] = json.load(open(_f))
